@@ -70,6 +70,8 @@ Inductive zop :=
 | ZSetInstance            (* the application hands over its instance *)
 | ZGet                    (* get_async_zeroconf(): creates one if none (listener start) *)
 | ZServiceInfo (ok : bool)  (* _async_zeroconf_get_service_info: lookup succeeds / fails *)
+| ZGetNoSockets           (* get_async_zeroconf() on a host where AsyncZeroconf() cannot open its sockets (OSError) *)
+| ZServiceInfoNoSockets   (* a lookup on such a host *)
 | ZClose.                 (* async_close(): ReconnectLogic.stop() *)
 Inductive zobs := ZCreated | ZClosed (o : origin) | ZRaise.
 
@@ -92,6 +94,10 @@ Definition zstep (s : zcm) (o : zop) : zcm * list zobs :=
     let had := match z_inst s with Some _ => true | None => false end in
     let '(s1, o1) := z_get s in
     if had then (s1, o1) else let '(s2, o2) := z_close s1 in (s2, o1 ++ o2)
+  (* the engine is created first and recorded as the library's own only afterwards (_create_async_zeroconf): a failed creation
+     leaves the manager exactly as it was; with an engine already present nothing is created, so nothing fails *)
+  | ZGetNoSockets => match z_inst s with Some _ => (s, []) | None => (s, [ZRaise]) end
+  | ZServiceInfoNoSockets => match z_inst s with Some _ => (s, []) | None => (s, [ZRaise]) end
   | ZClose => z_close s
   end.
 Fixpoint zrun (s : zcm) (ops : list zop) : zcm * list zobs :=
